@@ -206,7 +206,8 @@ def random_run(topology, seed, profile, steps, settings=None, max_circuits=3, go
             elif name == "advcreate":
                 w.adv_create(rng.choice(list(names) + ["adv"]), rng.choice(names), rng.choice([0] + known))
             elif name == "destroy":
-                genuine = [d for d in w.net.wire if len(d.data) > 23 and d.data[22] == 8 and d.note != "injected"]
+                genuine = [d for d in w.net.wire if len(d.data) > 23 and d.data[22] == 8 and d.note != "injected"
+                           and w.describe(d).get("signer") in names]      # (a duplicate of a forged one is not genuine)
                 if genuine and rng.random() < 0.4:
                     g = rng.choice(genuine)
                     # a replayed genuine destroy is sent with the (spoofed) source address of its signer: the community
